@@ -8,7 +8,7 @@ verus! {
 
 impl<T> MinusPlus<T> {
     //@ fn src/minusplus.rs MinusPlus::new
-    //@| ensures r.minus == minus, r.plus == plus,
+    //@| ensures r.minus == minus, r.plus == plus,  // @C01:minusplus.new.keeps.the.sides
 }
 
 //@ stub src/paint.rs paint_minus_and_plus_lines spec=paint.paint_minus_and_plus_lines
